@@ -2,7 +2,7 @@
 CHECK = {
     "pkg": ".", "files": ["root/c44_test.go"], "run": "^TestC44",
     "quick": {"scale": 1, "shards": 1, "timeout": 600},
-    "thorough": {"scale": 5, "shards": 8, "timeout": 1500},
+    "thorough": {"scale": 20, "shards": 8, "timeout": 1800},
     "engine": "E-model",
     "technique": "rapid-generated handshake histories (HostMap.unlockedAddHostInfo with generated certificates) and query "
                  "messages (wire round trip) to dnsServer.handleDnsRequest against a reference zone built only from the history",
